@@ -41,9 +41,22 @@ Report(line, i, router, obs, failed) ==
 
 Pred(doc, req, router) == IF router = "g" THEN CurMuxObs(doc, req) ELSE CurLegacyObs(doc, req)
 
+(* the query and the fragment are not part of the path: the result for a URL with a tail  *)
+(* must be the result for the bare URL (judged where the bare request, same method, is   *)
+(* in the same case)                                                                     *)
+SameResult(a, b) == /\ Gist(a) = Gist(b)
+                    /\ a.k = "route" => a.m = b.m /\ a.op = b.op /\ SeqSet(a.params) = SeqSet(b.params)
+TailFailed(line, i, router) ==
+   LET r == line.reqs[i] IN
+   IF UTail(r.u) = "" \/ (router = "l" /\ HasMixed(line.doc)) THEN {}
+   ELSE LET js == {j \in 1..Len(line.reqs) : /\ line.reqs[j].m = r.m /\ UTail(line.reqs[j].u) = ""
+                                             /\ URLStr(line.reqs[j].u) = BareURLStr(r.u)}
+        IN IF js = {} \/ SameResult(line[router][i], line[router][CHOOSE j \in js : TRUE]) THEN {}
+           ELSE {"query_or_fragment_changed_the_result"}
+
 JudgeObs(line, i, router) ==
    LET obs == line[router][i]
-       failed == FailedFor(router, line.doc, line.reqs[i], obs)
+       failed == FailedFor(router, line.doc, line.reqs[i], obs) \cup TailFailed(line, i, router)
    IN IF failed # {} THEN Report(line, i, router, obs, failed)
       ELSE \/ router = "l" /\ HasMixed(line.doc)      \* the legacy model does not cover mixed segments
            \/ Gist(obs) = Gist(Pred(line.doc, line.reqs[i], router))
